@@ -12,6 +12,7 @@ git -C "$SCRATCH/repo" checkout -q -- .
 rsync -a --exclude target "$ROOT/harness/" "$SCRATCH/harness/"
 sed -i "s#flatcontainer = { path = \"/repo\" }#flatcontainer = { path = \"$SCRATCH/repo\" }#" "$SCRATCH/harness/Cargo.toml"
 git -C "$SCRATCH/repo" apply "$DIFF" || { echo "APPLY-FAILED"; exit 1; }
+export FCVERIF_REPO_SRC="$SCRATCH/repo/src"
 cd "$SCRATCH/harness" && CARGO_NET_OFFLINE=true cargo build --offline --bin fcverif >"$SCRATCH/build.log" 2>&1 || { echo "BUILD-FAILED"; tail -5 "$SCRATCH/build.log"; git -C "$SCRATCH/repo" checkout -q -- .; exit 2; }
 for P in "$@"; do
   ./target/debug/fcverif run --prop $P --tier quick --seed ${VERIF_SEED:-20260926} --threads ${THREADS:-6} --out "$SCRATCH/out-$P.json" >/dev/null 2>&1
